@@ -19,7 +19,16 @@ STEPS = {'push': ['PUSHNAT'], 'newbm': ['EMPTYBM'], 'newbm2': ['EMPTYBM', 'PUSHO
          'commit': ['CDR', 'PUSHOPT', 'PUSHSTR', 'UPDATE', 'NILOP', 'PAIR', 'COMMIT'], 'drop': ['DROP'], 'dropall': ['DROPALL'], 'storage': ['STORAGE'], 'parambm': ['PARAMBM'], 'beginptr': ['BEGINPTR']}
 
 
-def cell_text(c, fp):
+# how a failing cell fails: a plain FAILWITH, a FAILWITH inside a DIP body (the interpreter hides items while the body runs),
+# or a run-time error inside a DIP body after the body has already consumed items
+FAIL_STYLES = [['PUSH string "boom"', 'FAILWITH'],
+               ['PUSH nat 1', 'DIP { PUSH string "boom" ; FAILWITH }'],
+               ['PUSH nat 1', 'DIP { ' + ' ; '.join(['DROP'] * 8) + ' }'],
+               ['PUSH nat 1', 'PUSH nat 2', 'DIP 2 { PUSH string "boom" ; FAILWITH }'],
+               ['PUSH nat 3', 'PUSH address 0x05aabb']]     # a malformed optimized literal: the error carries bytes (execute() itself raises while reporting it)
+
+
+def cell_text(c, fp, style=0):
     steps = [STEP_TEXT[s] for s in STEPS[c]]
     if c == 'parambm':
         return steps[0] if fp == -1 else 'parameter (big_map (list nat) nat)'
@@ -27,7 +36,7 @@ def cell_text(c, fp):
         # a section declaration cannot be mixed with instructions: the failing variant is an ill-formed declaration
         return steps[0] if fp == -1 else 'storage (big_map (list nat) nat)'
     if fp != -1:
-        steps = steps[:fp] + ['PUSH string "boom"', 'FAILWITH'] + steps[fp:]
+        steps = steps[:fp] + FAIL_STYLES[style % len(FAIL_STYLES)] + steps[fp:]
     return ' ; '.join(steps)
 
 
@@ -48,7 +57,7 @@ def item_abs(item):
 
 def observe(interp):
     ctx = interp.context
-    return {'stack': tuple(item_abs(x) for x in interp.stack.items), 'tmp': ctx.tmp_big_map_index, 'alloc': ctx.alloc_big_map_index,
+    return {'stack': tuple(item_abs(x) for x in interp.stack.items), 'protected': getattr(interp.stack, 'protected', 0), 'tmp': ctx.tmp_big_map_index, 'alloc': ctx.alloc_big_map_index,
             'orig': ctx.origination_index, 'big_maps': dict(ctx.big_maps)}
 
 
@@ -62,6 +71,10 @@ def commit_diff(res):
         return ('no-diff', type(e).__name__)
 
 
+def style_of(hist, k):
+    return (k + hist[k][1] + len(hist)) % len(FAIL_STYLES)
+
+
 def run_session(hist, drop_failing=False):
     from pytezos.michelson.repl import Interpreter
     it = Interpreter()
@@ -69,11 +82,14 @@ def run_session(hist, drop_failing=False):
         r = it.execute(pre)
         assert r.error is None, r.error
     out = []
-    for (c, fp) in hist:
+    for k, (c, fp) in enumerate(hist):
         if fp != -1 and drop_failing:
             continue
-        r = it.execute(cell_text(c, fp))
-        failed = r.error is not None
+        try:
+            r = it.execute(cell_text(c, fp, style_of(hist, k)))
+            failed = r.error is not None
+        except Exception:   # noqa: a cell whose execution raises is a failing cell as well
+            r, failed = None, True
         o = observe(it)
         o['failed'] = failed
         o['commit'] = commit_diff(r) if (c == 'commit' and not failed) else None
@@ -84,7 +100,7 @@ def run_session(hist, drop_failing=False):
 def compare(ctx, st):
     hist = st['hist']
     case = {'hist': to_json(hist), 'stack': to_json(st['stack']), 'tmp': st['tmp'], 'alloc': st['alloc'], 'commits': to_json(st['commits']), 'regs': sorted(list(x) for x in (st.get('regs') or []))}
-    desc = 'session %s' % json.dumps([cell_text(c, fp) for c, fp in hist])
+    desc = 'session %s' % json.dumps([cell_text(c, fp, style_of(hist, k)) for k, (c, fp) in enumerate(hist)])
     with_f = run_session(hist)
     without = run_session(hist, drop_failing=True)
     ok = True
@@ -96,7 +112,7 @@ def compare(ctx, st):
     # (2) after every surviving cell the session with failing cells equals the session without them
     surv = [o for (c, fp), o in zip(hist, with_f) if fp == -1]
     for k, (a, b) in enumerate(zip(surv, without)):
-        for field in ('stack', 'tmp', 'alloc', 'orig', 'big_maps', 'commit'):
+        for field in ('stack', 'protected', 'tmp', 'alloc', 'orig', 'big_maps', 'commit'):
             if a[field] != b[field]:
                 ctx.mismatch('C22:differs-from-failure-free-session:%s' % field,
                              '%s: after surviving cell #%d, %s = %r with the failing cells, %r without them' % (desc, k + 1, field, a[field], b[field]), case)
@@ -108,7 +124,7 @@ def compare(ctx, st):
     prev = None
     for (c, fp), o in zip(hist, with_f):
         if fp != -1 and prev is not None:
-            for field in ('stack', 'tmp', 'alloc', 'orig', 'big_maps'):
+            for field in ('stack', 'protected', 'tmp', 'alloc', 'orig', 'big_maps'):
                 if o[field] != prev[field]:
                     ctx.mismatch('C22:failing-cell-changed:%s' % field, '%s: failing cell %r changed %s from %r to %r' % (desc, cell_text(c, fp), field, prev[field], o[field]), case)
                     ok = False
@@ -130,7 +146,7 @@ def compare(ctx, st):
 
 def run(ctx):
     ctx.rule = ('sessions of up to N cells over the alphabet push / EMPTY_BIG_MAP / EMPTY_BIG_MAP+UPDATE / UPDATE / BEGIN / COMMIT (CDR..UPDATE..PAIR ; COMMIT) / DROP / DROP_ALL / storage '
-                'declaration, each cell either clean or with a FAILWITH spliced in before its first step, in the middle or after its last step (at most F failing cells). '
+                'declaration, each cell either clean or with a failure spliced in before its first step, in the middle or after its last step (at most F failing cells; the failure is a plain FAILWITH, a FAILWITH inside a DIP / DIP 2 body, or a stack underflow inside a DIP body that has already dropped items). '
                 'Leg A: TLC checks AsIfNeverRan (state = replay of the surviving cells), Rollback, CountersMonotone, CommitIdsDistinct. Leg B: each session runs in a fresh Interpreter '
                 'with and without its failing cells; after every surviving cell the stack (big_map ids), tmp/alloc/origination counters, big_map registry and COMMIT lazy diffs must '
                 'agree, failing cells must change nothing, and the final state must equal the model; non-trivial = session has a failing cell')
@@ -158,7 +174,7 @@ def run(ctx):
         ctx.replayed += 1
         ctx.count(h, nontrivial=any(fp != -1 for _, fp in h))
         if ok and len(h) == n and ctx.replayed % 499 == 1:
-            ctx.sample({'cells': [cell_text(c, fp) for c, fp in h], 'model': {'stack': st['stack'], 'tmp': st['tmp'], 'alloc': st['alloc'], 'commits': st['commits']}}, limit=5)
+            ctx.sample({'cells': [cell_text(c, fp, style_of(h, k)) for k, (c, fp) in enumerate(h)], 'model': {'stack': st['stack'], 'tmp': st['tmp'], 'alloc': st['alloc'], 'commits': st['commits']}}, limit=5)
     ctx.exhaustive = False
     if not any(fp != -1 for st in states for _, fp in st['hist']):
         raise Exception('vacuity: no failing cell explored')
